@@ -40,6 +40,10 @@ def norm_decoded_module(m):
     m["controllers"] = [[amap.get(n, n), v] for n, v in m["controllers"]]
     if m.get("cmid") is None:
         m["cmid"] = []
+    from rvref import absdev
+
+    w = m.get("visualization")
+    m["vis_fields"] = None if w is None else {k: (w >> sh) & ((1 << width) - 1) for k, (sh, width) in absdev.VIS.items()}
     pl = dict(m.get("payload") or {})
     if "project" in pl:
         pl["project"] = norm_decoded(pl["project"])
@@ -170,7 +174,15 @@ def build(case):
     import rv.api as rv
 
     if case.get("kind") == "synth":
-        return rv.Synth(deviate.build(case["type"], case["devs"]))
+        mod = deviate.build(case["type"], case["devs"])
+        if case.get("attached"):
+            # "build it in a project, export it as an instrument": the module has a parent while the Synth is written
+            rv.Project().attach_module(mod)
+        if case.get("attached") == "effect":
+            smp = rv.m.Sampler()
+            smp.effect = rv.Synth(mod)
+            return rv.Synth(smp)
+        return rv.Synth(mod)
     if case.get("kind") == "extra":
         from checks import c15, c16
 
@@ -180,7 +192,7 @@ def build(case):
 
 def case_key(case):
     if case.get("kind") == "synth":
-        return {"ctx": "synth", "type": case["type"]}
+        return {"ctx": "synth" + ("-of-project-module" if case.get("attached") else ""), "type": case["type"]}
     if case.get("kind") == "extra":
         return {"ctx": case["from"]}
     return dict(c01.case_key(case), ctx="project", part=case["kind"])
@@ -215,6 +227,10 @@ def _task(t):
             if k2 != "reduced":
                 cases.append({"kind": "module", "mods": [[tkey, c]]})
             cases.append({"kind": "synth", "type": tkey, "devs": c})
+            if not k2 and (not c or c[0]["k"] in ("ctl", "attr", "vis", "flag")):
+                cases.append({"kind": "synth", "type": tkey, "devs": c, "attached": True})
+            if not k2 and not c:
+                cases.append({"kind": "synth", "type": tkey, "devs": c, "attached": "effect"})
     for case in cases:
         try:
             obj = build(case)
